@@ -23,7 +23,8 @@ from collections import OrderedDict, defaultdict
 
 import tatsu.exceptions
 
-from MIP.geom.cells import get_cells, get_cell_importances
+from MIP.geom.cells import (get_cells, get_cell_importances,
+                            get_cell_parameter_cards)
 from MIP.geom.parsegeom import get_ast
 from MIP.geom.transforms import to_cos
 from MIP.mip.datacard import expand_data_card
@@ -58,6 +59,12 @@ class ParseMCNPCell:
         self.cell_cache_path = cell_cache_path
         self.lattice_params = lattice_params.copy()
         self.importances = self.parse_importance_cards()
+        param_cards = get_cell_parameter_cards(self.mcnp_parser)
+        if param_cards:
+            cards = ', '.join(card.upper() for card in param_cards)
+            msg = ('cell parameters given on data cards are not supported '
+                   f'({cards}); please move them to the cell cards')
+            raise NotImplementedError(msg)
         self.transforms = get_mcnp_transforms(self.mcnp_parser)
         for transform in self.transforms.values():
             if len(transform) == 13 and int(transform[-1]) != 1:
